@@ -168,7 +168,7 @@ class Ctx:
         """An evaluation that by design gives no verdict (free zone)."""
         o = self._oracle(oracle)
         o["n"] += 1
-        o["grey"] += 1
+        o["skip"] = o.get("skip", 0) + 1
 
     def violation(self, key, info=None):
         v = self.violations.get(key)
